@@ -2,6 +2,7 @@ CONSTANTS
   Family = "C12q"
   IdBytes = 20
   MaxSeq = 6
+  Seeded = {}
 INIT Init
 NEXT Next
 INVARIANTS
@@ -12,6 +13,7 @@ INVARIANTS
   IdpRecovers
   DeliveredToDestination
   IdpAcceptsDestination
+  IdpFindsAcs
   OneStepIsFirstLocation
   MessageIntact
   SignedOctetsExact
@@ -20,6 +22,8 @@ INVARIANTS
   UnsignedWhenOff
   VerifiesUnderPublished
   SignedWhateverIdpWants
+  SignedOnEveryPath
+  MiddlewareEmitsChosen
   PinnedDiffersOnlyWhereNamed
   Emit
 PROPERTIES
